@@ -294,13 +294,44 @@ func (u *uploader) createReport(start time.Time, expiryDate string, countFiles [
 	return "", nil
 }
 
-// exclusiveWrite attempts to create filename exclusively, and if successful,
-// writes content to the resulting file handle.
+// exclusiveWrite attempts to create filename exclusively, with the given
+// content.
 //
-// It returns a boolean indicating whether the exclusive handle was acquired,
+// It returns a boolean indicating whether the file was created by this call,
 // and an error indicating whether the operation succeeded.
 // If the file already exists, exclusiveWrite returns (false, nil).
+//
+// The content is written to a temporary file that is then linked into place,
+// so that the file appears complete or not at all: another uploader that
+// lists the directory while the report is being written must not find (and
+// upload, and on the server's refusal delete) an empty or partial report.
 func exclusiveWrite(filename string, content []byte) (_ bool, rerr error) {
+	tmpName := fmt.Sprintf("%s.tmp%d-%d", filename, os.Getpid(), time.Now().UnixNano())
+	tmp, err := os.OpenFile(tmpName, os.O_WRONLY|os.O_CREATE|os.O_EXCL, 0644)
+	if err != nil {
+		return exclusiveWriteInPlace(filename, content)
+	}
+	defer os.Remove(tmpName)
+	_, werr := tmp.Write(content)
+	if cerr := tmp.Close(); werr == nil {
+		werr = cerr
+	}
+	if werr != nil {
+		return false, werr
+	}
+	if err := os.Link(tmpName, filename); err != nil {
+		if os.IsExist(err) {
+			return false, nil
+		}
+		// No hard links here.
+		return exclusiveWriteInPlace(filename, content)
+	}
+	return true, nil
+}
+
+// exclusiveWriteInPlace is exclusiveWrite for file systems without hard
+// links: the file is created exclusively and then written.
+func exclusiveWriteInPlace(filename string, content []byte) (_ bool, rerr error) {
 	f, err := os.OpenFile(filename, os.O_WRONLY|os.O_CREATE|os.O_EXCL, 0644)
 	if err != nil {
 		if os.IsExist(err) {
